@@ -8,7 +8,9 @@
     [firstInCycle r cycle n] the first segment of that cycle; [scheduleCode r codes rep n] the code
     of the first pattern (in order) whose representation filter matches and whose rsq equals
     n - firstInCycle, 0 if none; [scheduled ... base] that code, or the answer [base] the request
-    gets without the parameter.  [goodCode r ss]: cycle > 0, cycle*ts < 2^63, E 0 <= cycle*ts. *)
+    gets without the parameter.  [goodCode r ss]: 0 < cycle <= 2^31-1 (what the parser accepts) and
+    E 0 <= cycle*ts (the first segment is not longer than the cycle).  [codeValid]: the range checks
+    of ParseSegStatusCodes. *)
 From Verif Require Import GoSem Timeline TimelineProofs Fault FaultProofs FaultLossProofs.
 
 (** ** statuscode_ *)
@@ -42,7 +44,7 @@ Print Assumptions C14_status_spec.
     with the same number): while the segment is available the answer is the scheduled code, or
     exactly the answer without the parameter; too early / gone are answered as without it. *)
 Theorem C14_status_number : forall r loopMS, wf r loopMS -> forall c codes repID audio n now base,
-  startS c = 0 -> startNr c = 0 -> repDuration r < two64 -> Forall (goodCode r) codes -> codes <> [] ->
+  startS c = 0 -> startNr c = 0 -> repDuration r < two64 -> Forall (goodCode r) codes -> codes <> [] -> forallb codeValid codes = true ->
   0 <= n < two32 -> S r n * 1000 < two63 -> ts r < two32 -> 0 <= now ->
   segAnswer r loopMS c codes repID audio ByNumber n now base =
   timedAnswer (checkTime (E r n) (ts r) now (tsbdS c) (ato c)) (scheduled r codes repID n base).
@@ -51,7 +53,7 @@ Print Assumptions C14_status_number.
 
 (** The same for a video request by $Time$. *)
 Theorem C14_status_time : forall r loopMS, wf r loopMS -> forall c codes repID n now base,
-  startS c = 0 -> startNr c = 0 -> repDuration r < two64 -> Forall (goodCode r) codes -> codes <> [] ->
+  startS c = 0 -> startNr c = 0 -> repDuration r < two64 -> Forall (goodCode r) codes -> codes <> [] -> forallb codeValid codes = true ->
   0 <= n < two32 -> S r n * 1000 < two63 -> ts r < two32 -> 0 <= now ->
   segAnswer r loopMS c codes repID None ByTime (S r n) now base =
   timedAnswer (checkTime (E r n) (ts r) now (tsbdS c) (ato c)) (scheduled r codes repID n base).
@@ -61,7 +63,7 @@ Print Assumptions C14_status_time.
 (** An audio request by $Time$: the audio time t (a multiple of the frame duration) lies in
     reference segment n, i.e. S n <= floor(t * ts / audio timescale) < E n. *)
 Theorem C14_status_audio_time : forall r loopMS, wf r loopMS -> forall c codes repID ats sd t n now base,
-  startS c = 0 -> startNr c = 0 -> repDuration r < two64 -> Forall (goodCode r) codes -> codes <> [] ->
+  startS c = 0 -> startNr c = 0 -> repDuration r < two64 -> Forall (goodCode r) codes -> codes <> [] -> forallb codeValid codes = true ->
   0 <= n < two32 -> S r n * 1000 < two63 -> ts r < two32 -> 0 <= now ->
   0 < ats -> 0 < sd -> t mod sd = 0 -> 0 <= t -> t * ts r < two64 ->
   S r n <= t * ts r / ats < E r n ->
@@ -80,8 +82,9 @@ Proof. exact scheduled_single. Qed.
 Print Assumptions C14_status_iff.
 
 (** Refuted outside these hypotheses (witnesses reproduced on the code, known_findings c14-...):
-    a start time, a start number, a cycle shorter than the first segment, a cycle whose length in
-    ticks wraps to 0. *)
+    a start time, a start number (from the second cycle on), a cycle shorter than the first
+    segment.  A cycle above 2^31 s is refused with 400 (its length in ticks used to wrap to 0:
+    division by zero, fixed in the repository). *)
 Theorem C14_start_refuted :
   wf w_rep2 8000 /\ goodCode w_rep2 (w_code 8 1 404) /\ goodCode w_rep2 (w_code 30 1 404) /\
   segAnswer w_rep2 8000 (w_cfg 30 0) [w_code 8 1 404] "V300" None ByNumber 4 40037 200
@@ -93,7 +96,7 @@ Print Assumptions C14_start_refuted.
 
 Theorem C14_snr_refuted :
   wf w_rep2 8000 /\ goodCode w_rep2 (w_code 8 1 404) /\
-  segAnswer w_rep2 8000 (w_cfg 0 7) [w_code 8 1 404] "V300" None ByNumber 7 2037 200
+  segAnswer w_rep2 8000 (w_cfg 0 7) [w_code 8 1 404] "V300" None ByNumber 11 10037 200
     = APanic "findSegStartTime: index out of range" /\
   scheduleCode w_rep2 [w_code 8 1 404] "V300" 9 = 404 /\
   segAnswer w_rep2 8000 (w_cfg 0 7) [w_code 8 1 404] "V300" None ByNumber 16 20037 200 = AStatus 200.
@@ -112,26 +115,34 @@ Theorem C14_short_cycle_refuted :
 Proof. exact short_cycle_refuted. Qed.
 Print Assumptions C14_short_cycle_refuted.
 
-Theorem C14_cycle_wrap_refuted :
+Theorem C14_cycle_wrap_rejected :
   ~ goodCode w_rep2 (w_code 1152921504606846976 38 404) /\
   segAnswer w_rep2 8000 (w_cfg 0 0) [w_code 1152921504606846976 38 404] "V300" None ByNumber 38 78037 200
-    = APanic "calcStatusCode: integer divide by zero".
-Proof. exact cycle_wrap_refuted. Qed.
-Print Assumptions C14_cycle_wrap_refuted.
+    = AStatus 400.
+Proof. exact cycle_wrap_rejected. Qed.
+Print Assumptions C14_cycle_wrap_rejected.
 
 (** ** traffic_ *)
 
-(** Parsing what was written gives the intervals back (positive durations below 2^63). *)
-Theorem C14_loss_parse : forall l, Forall goodItvl l -> createLossItvls (printItvls l) = Ok l.
+(** Parsing what was written gives the intervals back (at least one interval, positive durations,
+    total below 2^63). *)
+Theorem C14_loss_parse : forall l, Forall goodItvl l -> l <> [] -> sumDur l < two63 ->
+  createLossItvls (printItvls l) = Ok l.
 Proof. exact createLossItvls_print. Qed.
 Print Assumptions C14_loss_parse.
 
-(** Whatever is accepted has a state and a non-zero duration in every interval, and the list is
-    empty exactly for the strings without a state letter (the defect below). *)
+(** Whatever is accepted has at least one interval, a state and a non-zero duration in every
+    interval, a positive cycle, and the string contains a state letter; hence StateAt has a value
+    at every second (a pattern without a cycle duration used to be accepted and made StateAt
+    divide by zero: fixed in the repository, see C14_empty_pattern_rejected). *)
 Theorem C14_loss_accepts : forall p l, createLossItvls p = Ok l ->
-  Forall okItvl l /\ (l = [] <-> Forall (fun ch => letterState ch = None) p).
+  Forall okItvl l /\ l <> [] /\ 0 < cycleDurS l /\ exists ch, In ch p /\ letterState ch <> None.
 Proof. exact createLossItvls_ok. Qed.
 Print Assumptions C14_loss_accepts.
+
+Theorem C14_state_total : forall p l s, createLossItvls p = Ok l -> exists st, stateAt l s = Ok st.
+Proof. exact createLossItvls_stateAt. Qed.
+Print Assumptions C14_state_total.
 
 (** StateAt l s is the state at position s mod cycle of the interval sequence written out second
     by second, for every second s >= 0; the cycle is the sum of the durations. *)
@@ -176,19 +187,20 @@ Theorem C14_traffic_step : forall traffic i rest nowMS itvls,
 Proof. exact trafficStep_baseURL. Qed.
 Print Assumptions C14_traffic_step.
 
-Theorem C14_empty_pattern_refuted :
-  createLossItvls (bytesOf "12") = Ok [] /\ createLossItvls [] = Ok [] /\
-  stateAt [] 3000 = Panic "LossItvls.StateAt: integer divide by zero" /\
-  createAllLossItvls (bytesOf "u10,") = Ok [[{| l_dur := 10; l_state := LNo |}]; []] /\
-  mpdBaseURLs [[{| l_dur := 10; l_state := LNo |}]; []] = ["bu0/"; "bu1/"] /\
-  trafficStep [[{| l_dur := 10; l_state := LNo |}]; []] "/bu1/V300/1498.m4s" 3000000
-    = TrPanic "LossItvls.StateAt: integer divide by zero".
-Proof. exact empty_pattern_refuted. Qed.
-Print Assumptions C14_empty_pattern_refuted.
+Theorem C14_empty_pattern_rejected :
+  createLossItvls (bytesOf "12") = Err "invalid loss pattern" /\
+  createLossItvls [] = Err "invalid loss pattern" /\
+  createAllLossItvls (bytesOf "u10,") = Err "invalid loss pattern" /\
+  createAllLossItvls (bytesOf "u10,,d3") = Err "invalid loss pattern".
+Proof. exact empty_pattern_rejected. Qed.
+Print Assumptions C14_empty_pattern_rejected.
 
+(** Still open: a duration written with 20 digits wraps the 64-bit int and is accepted with
+    another value. *)
 Theorem C14_loss_overflow_refuted :
-  createLossItvls (bytesOf "u9223372036854775808") = Ok [{| l_dur := -9223372036854775808; l_state := LNo |}] /\
-  createLossItvls (bytesOf "u18446744073709551617") = Ok [{| l_dur := 1; l_state := LNo |}].
+  createLossItvls (bytesOf "u18446744073709551617") = Ok [{| l_dur := 1; l_state := LNo |}] /\
+  createLossItvls (bytesOf "u99999999999999999999d1")
+    = Ok [{| l_dur := 7766279631452241919; l_state := LNo |}; {| l_dur := 1; l_state := L404 |}].
 Proof. exact loss_overflow_refuted. Qed.
 Print Assumptions C14_loss_overflow_refuted.
 
